@@ -12,6 +12,7 @@ import (
 	"math/rand"
 	"os"
 	"path/filepath"
+	"runtime/debug"
 	"sort"
 	"strconv"
 	"strings"
@@ -270,6 +271,10 @@ func (s *sim) oracle(kind string, g int, n int64, res string, b, a snapshot, met
 			case !ok:
 				s.fail("reopen-loses-group", "group %d not restored", id)
 			case q == p:
+			case s.reset:
+				// after an explicit reset a group may sit below the queue ack or have ack > consumed;
+				// what NewConsumerGroup makes of such a meta page is compared with the model only
+				s.c.Branch("reopen-normalises-reset-group")
 			case q.c == p.c && p.a < a.ack && q.a == a.ack:
 				s.fail(keyReopenLift, "group %d had positions %v before close and %v after reopen (queue ack %d)", id, p, q, a.ack)
 			default:
@@ -545,6 +550,9 @@ func scratch(big bool) (string, error) {
 }
 
 func (a area) Run(c *core.Ctx) error {
+	// a store into a page that GC unmapped would otherwise kill the process: make it a panic of this
+	// goroutine (all queue calls are made synchronously from it), reported as an oracle failure
+	defer debug.SetPanicOnFault(debug.SetPanicOnFault(true))
 	for i := 0; i < c.N; i++ {
 		if !c.Want(i) {
 			continue
